@@ -3,10 +3,19 @@ import sys; sys.path.insert(0,'/verif/runner')
 import core
 hs=core.scan_harnesses()
 ids=sorted(set(p for h in hs for p in h['props']))
+out=[]
 for pid in ids:
     q=[h for h in hs if pid in h['props'] and h.get('prop_tier',{}).get(pid,h['tier'])=='quick']
     t=[h for h in hs if pid in h['props'] and h.get('prop_tier',{}).get(pid,h['tier'])!='quick']
-    print('**%s** quick (%d):' % (pid,len(q)))
-    for h in q: print('- `%s` — %s' % (h['name'].split('::')[1], h.get('bound','')))
-    print('thorough adds (%d, stretch): %s' % (len(t), ', '.join('`%s`'%h['name'].split('::')[1] for h in t) or '-'))
-    print()
+    out.append('**%s** quick (%d):' % (pid,len(q)))
+    for h in q: out.append('- `%s` — %s' % (h['name'].split('::')[1], h.get('bound','')))
+    out.append('(thorough tier adds %d stretch harnesses; names and bounds in harness/src/*.rs `// @h` lines)' % len(t))
+    out.append('')
+text='\n'.join(out)
+if '--inject' in sys.argv:
+    d=open('/verif/DESIGN.md').read()
+    a=d.index('**C01** quick', d.index('### 10.6'))
+    b=d.index('### 10.7')
+    open('/verif/DESIGN.md','w').write(d[:a]+text+'\n'+d[b:])
+else:
+    print(text)
